@@ -292,11 +292,17 @@ func (gs GenesisState) ValidateOperatorUSDValues(operators map[string]struct{}, 
 		}
 		avsUSDValue, ok := avsUSDValues[avsAddress]
 		if !ok {
-			return errorsmod.Wrapf(
-				ErrInvalidGenesisData,
-				"the parsed AVS address should be in the avsUSDValues map, AVS: %s, avsUSDValues: %+v",
-				avsAddress, avsUSDValues,
-			)
+			// an AVS has no value record of its own before its first epoch end: opting in writes the
+			// operator's zero record only, the AVS record is written by the voting-power update. only an
+			// operator record that carries a value needs the AVS total to compare with.
+			if !operatorUSDValue.OptedUSDValue.TotalUSDValue.IsZero() {
+				return errorsmod.Wrapf(
+					ErrInvalidGenesisData,
+					"the parsed AVS address should be in the avsUSDValues map, AVS: %s, avsUSDValues: %+v",
+					avsAddress, avsUSDValues,
+				)
+			}
+			avsUSDValue = DecValueField{Amount: operatorUSDValue.OptedUSDValue.TotalUSDValue}
 		}
 
 		if operatorUSDValue.OptedUSDValue.TotalUSDValue.GT(avsUSDValue.Amount) {
